@@ -146,7 +146,7 @@ def special(name, src):
         k = src.find(old)
         if k < 0:
             return None
-        new = "    fn is_simple(&self) -> bool {\n        let seen: std::collections::HashSet<usize> = self.arcs.keys().copied().collect();\n        let _ = seen.len();\n"
+        new = "    fn is_simple(&self) -> bool {\n        let seen: std::collections::HashSet<usize> = self.arcs.keys().copied().collect();\n        let _ = seen.iter().next();\n"
         return src[:k] + new + src[k + len(old):]
     return None
 
